@@ -3,10 +3,11 @@
    Separate extraction: one OCaml module per Coq file, written to Extract/ml/. *)
 From Coq Require Import NArith ZArith List.
 From Coq Require Extraction ExtrOcamlBasic.
-From Verif Require Import Kernel.Varint Model.PlainFrame.
+From Verif Require Import Kernel.Varint Model.PlainFrame Model.NoiseFrame Model.WireSpec.
 Extraction Language OCaml.
 Cd "Extract/ml".
 Separate Extraction N.add N.mul N.of_nat N.to_nat N.eqb Z.add Z.mul Z.opp
   Varint.enc Varint.read_varuint
-  PlainFrame.write_packets PlainFrame.run PlainFrame.data_received.
+  PlainFrame.write_packets PlainFrame.run PlainFrame.data_received
+  NoiseFrame.run NoiseFrame.sess_init WireSpec.spec_decode_plain WireSpec.spec_decode_noise.
 Cd "../..".
